@@ -23,6 +23,14 @@
    events must pass on the merged real history.  The race is constructed/probabilistic; correct code (one
    limiter per key) cannot fail it.  TLC checks getOrAdd's two-phase lookup with concurrent callers at design
    level (Throttle_map.cfg: SpecMap; mechanism M_ReturnStoredLimiter, mutant "orphan" must be rejected).
+5. Rules family: TLC enumerates (SpecRule, Throttle_rules.cfg) all pairs of rules with 0..3 conditions over three
+   fields x all events and exports which rule must govern each (first matching rule; a rule matches iff every pair
+   of its own condition map holds); every rule list is started 8 times through the real Plugin.Start (random map
+   iteration, different insertion orders) and the number of identical events that pass in one bucket must equal the
+   limit of that rule.  Mutant "permvals" (values not aligned with the sorted keys) must be rejected.
+   The expiry family has a second scenario: map EMPTY for longer than limiter_expiration, then busy keys (the map
+   generation must follow the wall clock while the map is empty; design level: M_GenAdvancesWhenEmpty, mutant
+   "emptyskip").
 """
 import json
 import os
@@ -32,11 +40,12 @@ import vlib
 
 LEVEL = "model_checking"
 
-MUTANTS = ["lt", "nozero", "wipeprev", "rot1", "rotdif", "noremap", "future", "shared", "steal", "nogen", "orphan"]
-MUTANT_CFG = {"nogen": "Throttle_expiry.cfg", "orphan": "Throttle_mapmut.cfg"}
+MUTANTS = ["lt", "nozero", "wipeprev", "rot1", "rotdif", "noremap", "future", "shared", "steal", "nogen", "emptyskip", "orphan", "permvals"]
+MUTANT_CFG = {"nogen": "Throttle_expirymut.cfg", "emptyskip": "Throttle_expirymut.cfg",
+              "orphan": "Throttle_mapmut.cfg", "permvals": "Throttle_rulesmut.cfg"}
 PROPERTY_INVARIANTS = {"NeverOverLimit", "TotalWithinSum", "NoEarlyReject", "Remap", "ValueWithinShare",
                        "MustRespected", "KeysIndependent", "BusyKeyWithinLimit", "EvictedOnlyIdle",
-                       "MapNeverOverLimit", "MapNoEarlyReject"}
+                       "MapNeverOverLimit", "MapNoEarlyReject", "FirstMatchingRuleGoverns"}
 
 
 def start_expiry(ctx, binary, n):
@@ -74,8 +83,13 @@ def run(ctx):
     cfg = "Throttle_thorough.cfg" if thorough else "Throttle_quick.cfg"
     binary = ctx.go_test_build("plugin/action/throttle")
     exp_proc, exp_out = start_expiry(ctx, binary, 1)          # real time, runs while TLC works
+    rules_res = ctx.tlc_expect_ok("Throttle", "Throttle_rules.cfg", timeout=600, deadlock=False, workers=8)
+    rule_cases = rules_res.printed
+    rules_res.out = ""
+    if len(rule_cases) < 19683:
+        raise vlib.Infra("TLC exported only %d rule-selection cases" % len(rule_cases))
     if ctx.replay:
-        cases = [r["case"] for r in json.load(open(ctx.replay)) if r["case"].get("s") not in ("expiry", "concurrent")]
+        cases = [r["case"] for r in json.load(open(ctx.replay)) if r["case"].get("s") not in ("expiry", "concurrent", "rules")]
         cases = cases or [{"s": "ring", "C": 1, "k": 0, "d": 0, "l": [1], "e": [[1, 0, 0, 1, 0, 1, 1, 0]]}]
         total = len(cases)
         res = ctx.tlc_expect_ok("Throttle", "Throttle_mutant.cfg", timeout=300, deadlock=False, workers=4)
@@ -128,12 +142,26 @@ def run(ctx):
                                                 "(natural keys); the oracle is order-independent and cannot fail on code "
                                                 "with one limiter per key")
 
+    rules_in = os.path.join(ctx.scratch, "c16_rules.ndjson")
+    with open(rules_in, "w") as f:
+        for c in rule_cases:
+            f.write(json.dumps(c, separators=(",", ":")) + "\n")
+    rules_out = os.path.join(ctx.scratch, "c16_rules_out.json")
+    rc, txt = ctx.run_bin(binary, "^TestVerifC16Rules$", env={"VERIF_RULES_CASES": rules_in, "VERIF_RULES_OUT": rules_out},
+                          timeout=600)
+    if rc != 0 or not os.path.exists(rules_out):
+        raise vlib.Infra("C16 rules family failed rc=%s:\n%s" % (rc, txt[-3000:]))
+    rul = json.load(open(rules_out))
+    if rul["cases"] != len(rule_cases):
+        raise vlib.Infra("rules family executed %d of %d cases" % (rul["cases"], len(rule_cases)))
+    ctx.extra["rules_family"] = {k: v for k, v in rul.items() if k != "violations"}
+
     ex = finish_expiry(ctx, binary, exp_proc, exp_out)
     ctx.extra["expiry_family"] = {k: v for k, v in ex.items() if k != "violations"}
 
-    ctx.evaluations = st["Steps"] + ex["hits"] + conc["hits"]
+    ctx.evaluations = st["Steps"] + ex["hits"] + conc["hits"] + rul["decisions"]
     ctx.nontrivial = st["NonTrivial"]
-    ctx.traces_validated = 2 * r["executed"] + st["Projections"] + 1 + conc["keys"]
+    ctx.traces_validated = 2 * r["executed"] + st["Projections"] + 2 + conc["keys"] + rul["instances"]
     ctx.exhaustive = not ctx.replay
     ctx.drift += st["Drift"]
     ctx.extra["replay_stats"] = st
@@ -150,6 +178,10 @@ def run(ctx):
         "in-memory backend; limits >= 0; limiter expiry switched off (limiter_expiration 100000h) in the step-by-step "
         "replay; exercised separately by the real-time expiry family (limiter_expiration 2.5s, real maintenance loop, "
         "two busy keys and one idle key, one frozen bucket)",
+        "rules family: 2 rules + default, 0..3 equality conditions each over 3 fields x 2 values; 8 plugin instances per "
+        "rule list (Go map iteration order is random, so a misalignment shows with probability 1/2 or more per instance)",
+        "expiry family, idle-first scenario: limiter_expiration 4s, map empty for 5.2s, then two busy keys for 2.4s; its "
+        "verdict counts only if its own map generations advanced in time or a never-empty control map's did",
         "concurrency family: the simultaneous first touch of a brand-new key by several plugin instances is constructed "
         "(forced) or probabilistic (natural); 8 instances, 30 rounds x 4 fresh keys, count kind, one frozen bucket",
         "the retained window of a key is anchored at the newest clock reading seen with an event of that key",
@@ -168,6 +200,7 @@ def run(ctx):
         recs.append(m)
     recs += ex.get("violations") or []
     recs += conc.get("violations") or []
+    recs += rul.get("violations") or []
     if r.get("by_kind"):
         ctx.extra["mismatches_by_kind"] = r["by_kind"]
     ctx.classify(recs)
